@@ -181,10 +181,10 @@ def potable(args, text):
     finally:
         shutil.rmtree(d, ignore_errors=True)
 
-def eval_results(tag, pre, exprs):
+def eval_results(tag, pre, exprs, chunk=40):
     """exprs of type `list Z`; returns decoded int lists"""
     from concurrent.futures import ThreadPoolExecutor
-    CH = 40
+    CH = chunk
     chunks = [exprs[k:k + CH] for k in range(0, len(exprs), CH)]
     def one(ic):
         i, ch = ic
